@@ -226,6 +226,10 @@ pub fn run_c36(tier: Tier, seed: u64) -> i32 {
                 *unbound.entry(sp.sql.to_string()).or_insert(0) += 1;
                 continue;
             }
+            if out["err"] == "TIMEOUT" {
+                rep.inconclusive("statement-timeout");
+                continue;
+            }
             let _ = writeln!(log, "{}", json!({"id": id, "f": sp.model, "args": rows[i].iter().map(cell_to_wire).collect::<Vec<_>>(), "out": out, "path": "column"}));
             index.push((si, rows[i].clone(), format!("SELECT {} FROM args /* row {} */", expr, i), "column", out));
             id += 1;
@@ -245,7 +249,7 @@ pub fn run_c36(tier: Tier, seed: u64) -> i32 {
                 Outcome::Panic(m) => json!({"err": format!("PANIC: {}", m)}),
                 Outcome::Timeout => json!({"err": "TIMEOUT"}),
             };
-            if is_unbound(&out) {
+            if is_unbound(&out) || out["err"] == "TIMEOUT" {
                 continue;
             }
             let _ = i;
@@ -346,8 +350,7 @@ fn arg_class(c: &Cell) -> &'static str {
 /// One tag for the argument tuple, so that a recorded deviation on unusual
 /// arguments does not hide a new one on ordinary arguments: position of the
 /// first NULL for NULL handling; for wrong values the most unusual trait
-/// present (non-ASCII text, non-finite or negative or zero numbers, empty
-/// text), else `plain`.
+/// present (non-ASCII text, non-finite, negative or zero numbers), else `plain`.
 fn tuple_tag(kind: &str, args: &[Cell]) -> String {
     if kind == "null-handling" {
         return format!("arg{}", args.iter().position(|c| c.is_null()).unwrap_or(0));
@@ -356,9 +359,9 @@ fn tuple_tag(kind: &str, args: &[Cell]) -> String {
         return "any".into();
     }
     let cls: Vec<&str> = args.iter().map(arg_class).collect();
-    for t in ["nonascii", "nan", "inf", "neg", "fneg", "zero", "fzero", "empty", "big"] {
+    for (t, tag) in [("nonascii", "nonascii"), ("nan", "nonfinite"), ("inf", "nonfinite"), ("neg", "negative"), ("fneg", "negative"), ("zero", "zero"), ("fzero", "zero")] {
         if cls.contains(&t) {
-            return t.into();
+            return tag.into();
         }
     }
     "plain".into()
